@@ -77,24 +77,34 @@ def handleProg (is : List Instruction) (out : Sexp) : CaseResult :=
 def handleExpand (is : List Instruction) (i : Instruction) (prev : List Instruction) (out : Sexp) :
     CaseResult :=
   let p := Prog.fromInstructions is
-  let mOut := modelExpand env is i prev
-  -- spec on the implementation's answer: an expansion is a fixpoint; `none` means nothing matches
-  let specOk := match out with
-    | .list [.atom "ok", .list [.atom "none"]] => noMatchB env p.cals i
-    | .list [.atom "ok", .list [.atom "some", l]] =>
+  let mOut := modelExpand env codeSubst is i prev
+  let agree := mOut == out
+  -- spec on the implementation's answer: with and without detail the same; an expansion is a fixpoint and is
+  -- the one the specification's substitution gives; `none` means nothing matches
+  let sOut := modelExpand env specSubst is i prev
+  let faithful := sOut == out
+  let basic := match out with
+    | .list [.atom "ok", .list [.atom "none"], .atom "same"] => noMatchB env p.cals i
+    | .list [.atom "ok", .list [.atom "some", l], .atom "same"] =>
       match decodeInstructionList l with
       | some res => fixpointB env p.cals res && !noMatchB env p.cals i
       | none => false
-    | .list [.atom "recursive", _] => true
+    | .list [.atom "recursive", _, .atom "same"] => true
     | _ => false
+  let formalElsewhere := p.cals.mcals.any (fun c =>
+    c.instructions.any (fun i => !formalCoveredB c.identifier.target i))
+  let kf := basic && !faithful && agree && formalElsewhere
   let kindTag := match out with
-    | .list [.atom "ok", .list [.atom "none"]] => "expand-none"
-    | .list [.atom "ok", _] => "expand-some"
-    | .list [.atom "recursive", _] => "expand-recursive"
+    | .list [.atom "ok", .list [.atom "none"], _] => "expand-none"
+    | .list [.atom "ok", _, _] => "expand-some"
+    | .list [.atom "recursive", _, _] => "expand-recursive"
     | _ => "expand-error"
-  { agree := mOut == out, specOk := specOk, nontrivial := !noMatchB env p.cals i,
+  { agree := agree, specOk := basic && faithful, nontrivial := !noMatchB env p.cals i,
     tags := ["expand", kindTag, s!"prev{min prev.length 3}"] ++
-      (if (prev.map keyText).contains (keyText i) then ["in-breadcrumbs"] else []),
+      (if (prev.map keyText).contains (keyText i) then ["in-breadcrumbs"] else []) ++
+      (if basic then [] else ["FAIL-expand-basic"]) ++
+      (if faithful then [] else ["FAIL-not-the-specified-substitution"]) ++
+      (if kf then ["kf:C17/formal-target-in-other-instructions"] else []),
     detail := s!"model={mOut} impl={out}" }
 
 def handle (inp out : Sexp) : CaseResult :=
